@@ -190,8 +190,14 @@ def main():
 
     blobs = vectors("dpapi_ng_blob")
     decoder("dpapi_ng._blob.DPAPINGBlob.unpack", blobs[:6], k=5, noise=10)
-    for b in blobs[:4]:
-        add("dpapi_ng._pkcs7.ContentInfo.unpack", b)
+    decoder("dpapi_ng._pkcs7.ContentInfo.unpack", blobs[:3], k=4, noise=10, repack=False)
+    envs = []
+    for b in blobs[:3]:
+        try:
+            envs.append(bytes(_pkcs7.ContentInfo.unpack(b).content))
+        except Exception:
+            pass
+    decoder("dpapi_ng._pkcs7.EnvelopedData.unpack", envs, k=5, noise=10, repack=False)
     kids = []
     for b in blobs:
         try:
